@@ -1,6 +1,7 @@
 package props
 
 import (
+	"strings"
 	"encoding/json"
 	"fmt"
 	"hash/fnv"
@@ -275,11 +276,22 @@ func RunReplay(t *testing.T, path string) ReplayResult {
 	rr := ReplayResult{Digest: out.Digest, Infra: out.Infra, Findings: out.Findings}
 	for _, f := range out.Findings {
 		rr.Tags = append(rr.Tags, f.Tag)
-		if f.Tag == rf.Tag {
+		if sameViolation(f.Tag, rf.Tag) {
 			rr.Reproduced = true
 		}
 	}
 	return rr
+}
+
+// sameViolation: tags are compared exactly, except race reports, whose tag carries the two
+// functions the detector happened to catch first: any report of a data race under the same
+// scenario reproduces "a data race".
+func sameViolation(a, b string) bool {
+	if a == b {
+		return true
+	}
+	const r = "C13:data-race:"
+	return strings.HasPrefix(a, r) && strings.HasPrefix(b, r)
 }
 
 // RunShrink minimises a violating scenario: greedy descent over the property's Shrink
@@ -292,7 +304,7 @@ func RunShrink(t *testing.T, in ReplayFile, maxExec int) ReplayFile {
 	}
 	has := func(o Outcome) (bool, string) {
 		for _, f := range o.Findings {
-			if f.Tag == in.Tag {
+			if sameViolation(f.Tag, in.Tag) {
 				return true, f.Detail
 			}
 		}
